@@ -146,6 +146,17 @@ def handle (op : String) (args res : List String) : Option Verdict :=
        | none, _, _ => .bad s!"entry point {name} is missing from the dependence table (Model/ErrContract.lean)"
        | _, _, _ => .bad "parse")
     | _ => .bad "parse"
+  | "c13_ctorclass" => some <|
+    match args with
+    | [cls, np] =>
+      if ctorTable.any (fun c => c.1.s == cls && some c.2 == np.toNat?) then .ok
+      else .bad s!"ctor-table: the harness drives constructor class {cls} with {np} parameters, which is not in ErrContract.ctorTable"
+    | _ => .bad "parse"
+  | "c13_ctorcount" => some <|
+    match args with
+    | [n] => if n.toNat? == some ctorTable.length then .ok
+             else .bad s!"ctor-table: the harness drives {n} constructor classes, ErrContract.ctorTable lists {ctorTable.length} (a listed class that is never executed)"
+    | _ => .bad "parse"
   | "c13_entrycount" => some <|
     match args with
     | [n] => if n.toNat? == some table.length then .ok
